@@ -728,6 +728,9 @@ def _item_scope(n, anc):
     patterns) or for-loop body.  Returns (scope expr, description)."""
     for i in range(len(anc) - 1, -1, -1):
         a = anc[i]
+        # the closure of `(0..n).for_each(|_| ..)` / `try_for_each` is a loop body
+        if a.get("k") == "Closure" and i > 0 and anc[i - 1].get("k") == "MethodCall" and anc[i - 1].get("name") in ("for_each", "try_for_each") and any(x is a for x in (unwrap(y) for y in anc[i - 1].get("args", []))):
+            return a.get("body"), "closure of %s at %s" % (anc[i - 1]["name"], loc(a))
         if a.get("k") == "Loop" and a.get("src") == "for":
             # body of the desugared for: the `Some(pat) => body` arm
             return a["body"], "for-loop body at %s" % loc(a)
